@@ -4,7 +4,7 @@ use crate::infra::td::*;
 use crate::infra::*;
 use serde_json::json;
 
-pub const RULE: &str = "digests as in C04 plus weighted inserts (weights 1e-3..1e3 and 1..1e6), total-fusion digests (delta 1.1), 1- and 2-point digests and digests whose outermost centroids carry weight > 1; per digest a grid of 2001+ q values (incl. 0, 1 and values next to both ends) and 1000+ x values around [min,max] (incl. every centroid mean +-1 ulp, min/max +-1 ulp): quantile non-decreasing, within [min,max], = min at 0 and = max at 1; cdf non-decreasing, within [0,1], 0 below min, 1 from max upward; |cdf(quantile(q)) - q| within the local resolution read from the digest's own centroids; repeated reads bit-identical; empty digest NaN / 0. Tolerance tau = 16*eps*max(|min|,|max|,range)*(W_total/w_min) on the value axis, 16*eps*(W_total/w_min) on the probability axis. non-trivial = digest with >= 3 centroids whose first or last centroid has weight > smallest inserted weight; distinct = (config, family, seed) tuples";
+pub const RULE: &str = "digests as in C04 plus weighted inserts (weights 1e-3..1e3 and 1..1e6; one block of items in eight at extreme magnitudes: values ~1e150 with weights x1e80 and values ~1e-150 with weights x1e-90), zeros fed as -0.0 in every other block, total-fusion digests (delta 1.1), 1- and 2-point digests and digests whose outermost centroids carry weight > 1; per digest a grid of 2001+ q values (incl. 0, 1 and values next to both ends) and 1000+ x values around [min,max] (incl. every centroid mean +-1 ulp, min/max +-1 ulp): quantile non-decreasing, within [min,max], = min at 0 and = max at 1; cdf non-decreasing, within [0,1], 0 below min, 1 from max upward; |cdf(quantile(q)) - q| within the local resolution read from the digest's own centroids; repeated reads bit-identical; empty digest NaN / 0. Tolerance tau = 16*eps*max(|min|,|max|,range)*(W_total/w_min) on the value axis, 16*eps*(W_total/w_min) on the probability axis. non-trivial = digest with >= 3 centroids whose first or last centroid has weight > smallest inserted weight; distinct = (config, family, seed) tuples";
 pub const ASSUMPTIONS: &[&str] = &[
     "local resolution for the cdf(quantile(q)) clause = weight of centroids whose mean lies within tau (at least 64 ulp) of the returned value + 1/4 of the interpolation cell containing q (cells read through the verif_centroids accessor) + probability-axis tolerance",
     "T-digest monitors run with debug assertions off (DESIGN 2.3)",
@@ -243,8 +243,19 @@ fn item(ctx: &Ctx, i: usize, rep: &mut Report) {
         _ => 2000 + r.below(ctx.tier.pick(30_000, 200_000)) as usize,
     };
     let label = format!("tdigest({},delta={},backlog={},{},weights={})", sf.name(), delta, backlog, fam.name(), ["unit", "unit", "1e-3..1e3", "1..1e6"][wmode as usize]);
+    let (vscale, voffset): (f64, f64) = *r.pick(&[(1.0, 0.0), (1.0, 0.0), (1e-19, 0.0), (1e9, 0.0), (1e4, 1.7e12), (-1.0, 0.0), (1e12, 0.0)]);
+    // One block of items in eight runs at extreme magnitudes (added after the seventh round of seeded changes):
+    // every value, weight, centroid sum x*w and the total weight stay finite and normal, but value*w*w'
+    // leaves the f64 range in either direction - a digest that orders or interpolates by cross-multiplying
+    // instead of dividing breaks here and nowhere else. The selection depends on the item number only, so
+    // the other items draw exactly what they drew before.
+    let (vscale, voffset, wscale) = match (i / 56) % 16 {
+        3 => (1e150 * vscale.signum(), 0.0, 1e80),
+        11 => (1e-150 * vscale.signum(), 0.0, 1e-90),
+        _ => (vscale, voffset, 1.0),
+    };
+    let label = if wscale != 1.0 { format!("{} values~{:e} weights x{:e}", label, vscale, wscale) } else { label };
     rep.config(&label);
-    let (vscale, voffset) = *r.pick(&[(1.0, 0.0), (1.0, 0.0), (1e-19, 0.0), (1e9, 0.0), (1e4, 1.7e12), (-1.0, 0.0), (1e12, 0.0)]);
     let mut t = make_td(sf, delta, backlog);
     let mut st = Stats { consistency_ratio: 0.0, nontie_ratio: 0.0, mono_excursion_tau: 0.0, end_excursion_tau: 0.0, reads: 0 };
     let mut w_min = f64::INFINITY;
@@ -255,17 +266,20 @@ fn item(ctx: &Ctx, i: usize, rep: &mut Report) {
         let mid_check = if n > 10 { 1 + r.below(n as u64 - 1) as usize } else { usize::MAX };
         for k in 0..n {
             let x = fam.gen(&mut r, k, n) * vscale + voffset;
+            // every other block of items feeds its zeros as -0.0 (seventh round)
+            let x = if (i / 56) % 2 == 1 && x == 0.0 { -0.0 } else { x };
             let w = match wmode {
                 2 => 10f64.powf(r.f64() * 6.0 - 3.0),
                 3 => 10f64.powf(r.f64() * 6.0).floor(),
                 _ => 1.0,
             };
             let w = if heavy_ends && (k < 2 || k + 2 >= n) { w * 1000.0 } else { w };
+            let w = w * wscale;
             w_min = w_min.min(w);
             if points.len() < 64 && (k < 32 || r.chance(0.01)) {
                 points.push(x);
             }
-            if w == 1.0 {
+            if w == 1.0 && wscale == 1.0 {
                 t.insert(x);
             } else {
                 t.insert_weighted(x, w);
@@ -299,7 +313,7 @@ fn item(ctx: &Ctx, i: usize, rep: &mut Report) {
         rep.violation(
             format!("{}/{}", sig, sf.name()),
             format!("{} after {} inserts ({} centroids): {}", label, n, cents.len(), what),
-            json!({"scale": sf, "delta": delta, "backlog": backlog, "family": fam.name(), "n": n, "weight_mode": wmode, "heavy_ends": heavy_ends, "value_scale": vscale, "value_offset": voffset, "item": i,
+            json!({"scale": sf, "delta": delta, "backlog": backlog, "family": fam.name(), "n": n, "weight_mode": wmode, "heavy_ends": heavy_ends, "value_scale": vscale, "value_offset": voffset, "weight_scale": wscale, "item": i,
                    "min": t.min(), "max": t.max(), "centroids_head": cents.iter().take(12).collect::<Vec<_>>(), "centroids_tail": cents.iter().rev().take(6).collect::<Vec<_>>()}),
         );
         return;
